@@ -160,7 +160,7 @@ class JournalFileSymlinkLock(BaseJournalFileLock):
                 if err.errno == errno.EEXIST:
                     if self.grace_period is not None:
                         try:
-                            current_mtime = os.stat(self._lock_file).st_mtime
+                            current_mtime = os.lstat(self._lock_file).st_mtime
                         except OSError:
                             continue
                         if current_mtime != mtime:
